@@ -231,7 +231,7 @@ class Session:
             for v in versions:
                 imgs = tuple((pol, sc, n + (v if i == 0 else 0), p) for i, (pol, sc, n, p) in enumerate(base))
                 self.built[(l, v)] = product.build_product(level=level, images=imgs, seed=seed * 16 + li * 4 + v + 1,
-                                                           ctx={"creation_datetime": f"20200301120{li}{v}000"})
+                                                           ctx={"creation_datetime": f"20200301120{li}{v}000"}, drift=bool(seed % 2))
         b0 = self.built[(locs[0], versions[0])]
         self.img = {"a": 0, "b": 1}
         self.names = {m: b0.images[i]["name"] for m, i in self.img.items()}
@@ -430,14 +430,22 @@ class Session:
                     msg = oracle.pixels_match(v2, im, rows=rows, cols=cols)
                     if msg is not None:
                         find("load_values", f"selection {last['sel']} rows={key[0]} cols={key[1]}: {msg}")
-                    self.arrays.setdefault((t, m), []).append(vals)
+                    # what the user obtained EARLIER is theirs: a later request must not change it behind their back
+                    for (t0, m0), held in self.arrays.items():
+                        for arr, snap, what in held:
+                            if arr is not vals and snap is not None and np.asarray(arr).tobytes() != snap:
+                                find("load_values", f"an array obtained earlier ({what}) changed when {last['sel']} rows={key[0]} was loaded afterwards")
+                                held[held.index((arr, snap, what))] = (arr, None, what)
+                    self.arrays.setdefault((t, m), []).append((vals, v2.tobytes() if msg is None else None, f"slot {t} image {m} {last['sel']} rows={key[0]}"))
         elif op == "mutate":
             import numpy as np
 
-            for arr in self.arrays.get((last["slot"], last["img"]), []):
+            held = self.arrays.get((last["slot"], last["img"]), [])
+            for i, (arr, snap, what) in enumerate(held):
                 a = np.asarray(arr)
                 if a.flags.writeable and a.size:
                     a[...] = 0
+                    held[i] = (arr, None, what)  # the user's own modification: no longer compared
         elif op == "copy":
             t, t2 = last["slot"], last["into"]
             if t in self.trees:
@@ -517,6 +525,16 @@ class Session:
                     self.place[l].remove(self.names[m] + ".index")
                 else:
                     self.place[l].put(self.names[m] + ".index", data)
+        elif op == "purge":
+            if last["scope"] == "all":
+                if self.rng.random() < 0.5:
+                    shutil.rmtree(self.cache_root, ignore_errors=True)
+                else:  # everything below $XDG_CACHE_HOME (the directory itself stays: it is the worker's)
+                    for n in os.listdir(self.cache_home):
+                        q = os.path.join(self.cache_home, n)
+                        shutil.rmtree(q, ignore_errors=True) if os.path.isdir(q) else os.remove(q)
+            else:
+                shutil.rmtree(os.path.dirname(self.local_path(last["scope"], "a")), ignore_errors=True)
         elif op == "cachedir":
             if last["usable"]:
                 self.unbreak()
